@@ -52,7 +52,13 @@ type kvElection struct {
 
 	watcherRunning atomic.Bool
 
-	wg sync.WaitGroup
+	// wg tracks the background goroutines of the current run (Start..Stop). Each
+	// run gets its own WaitGroup: a stop call whose wait timed out may still be
+	// in Wait() when the election is started again, and adding to that same
+	// WaitGroup then is a data race and can panic ("WaitGroup is reused before
+	// previous Wait has returned"). Goroutines capture the WaitGroup they were
+	// added to. Guarded by mu.
+	wg *sync.WaitGroup
 
 	// lifecycle (capacity 1) serialises Start with the part of
 	// Stop/StopWithContext that waits for the background goroutines: wg.Add
@@ -126,6 +132,7 @@ func newKVElection(nc JetStreamProvider, cfg ElectionConfig) (*kvElection, error
 		kv:        kv,
 		key:       cfg.Group,
 		lifecycle: make(chan struct{}, 1),
+		wg:        new(sync.WaitGroup),
 	}
 
 	e.isLeader.Store(false)
@@ -230,6 +237,7 @@ func (e *kvElection) Start(ctx context.Context) error {
 	electionCtx, cancel := context.WithCancel(ctx)
 	e.setContext(electionCtx)
 	e.cancel = cancel
+	e.wg = new(sync.WaitGroup)
 
 	if e.connectionMonitor != nil {
 		if err := e.connectionMonitor.Start(ctx); err != nil {
@@ -257,9 +265,10 @@ func (e *kvElection) Start(ctx context.Context) error {
 		)...,
 	)
 
-	e.wg.Add(1)
+	wg := e.wg
+	wg.Add(1)
 	go func() {
-		defer e.wg.Done()
+		defer wg.Done()
 		if err := e.attemptAcquire(); err != nil {
 			e.recordAcquireAttempt("failed")
 			e.recordFailure(classifyErrorType(err))
@@ -505,15 +514,16 @@ func (e *kvElection) becomeLeader(token string, rev uint64) {
 	}
 	e.termCancel = termCancel
 
-	e.wg.Add(1)
+	wg := e.wg
+	wg.Add(1)
 	go func() {
-		defer e.wg.Done()
+		defer wg.Done()
 		e.heartbeatLoop(termCtx)
 	}()
 
-	e.wg.Add(1)
+	wg.Add(1)
 	go func() {
-		defer e.wg.Done()
+		defer wg.Done()
 		e.validationLoop(termCtx)
 	}()
 
@@ -523,9 +533,9 @@ func (e *kvElection) becomeLeader(token string, rev uint64) {
 				zap.String("token", token),
 			)...,
 		)
-		e.wg.Add(1)
+		wg.Add(1)
 		go func() {
-			defer e.wg.Done()
+			defer wg.Done()
 			defer func() {
 				if r := recover(); r != nil {
 					log := e.getLogger()
@@ -687,10 +697,11 @@ func (e *kvElection) becomeFollowerLocked() bool {
 
 	if electionCtx := e.context(); electionCtx != nil && !e.watcherRunning.Load() {
 		e.watcherRunning.Store(true)
-		e.wg.Add(1)
+		wg := e.wg
+		wg.Add(1)
 		go func() {
 			defer e.watcherRunning.Store(false)
-			defer e.wg.Done()
+			defer wg.Done()
 			e.watchLoop(electionCtx)
 		}()
 	}
@@ -710,6 +721,7 @@ func (e *kvElection) Stop() error {
 
 	wasLeader := e.isLeader.Load()
 	onDemote := e.onDemote
+	wg := e.wg
 
 	currentState := StateInit
 	if s := e.state.Load(); s != nil {
@@ -758,7 +770,7 @@ func (e *kvElection) Stop() error {
 
 	done := make(chan struct{})
 	go func() {
-		e.wg.Wait()
+		wg.Wait()
 		close(done)
 	}()
 
@@ -812,6 +824,7 @@ func (e *kvElection) StopWithContext(ctx context.Context, opts StopOptions) erro
 	}
 
 	wasLeader := e.isLeader.Load()
+	wg := e.wg
 
 	currentState := StateInit
 	if s := e.state.Load(); s != nil {
@@ -853,7 +866,7 @@ func (e *kvElection) StopWithContext(ctx context.Context, opts StopOptions) erro
 
 	done := make(chan struct{})
 	go func() {
-		e.wg.Wait()
+		wg.Wait()
 		close(done)
 	}()
 
